@@ -745,18 +745,9 @@ where
     where
         Q: Hash + Equivalent<E::Key> + ?Sized,
     {
-        let hash = self.inner.hash_builder.hash_one(key);
-
-        match E::acquire() {
-            Op::Noop => self.inner.shards[self.shard(hash)].read().get_noop(hash, key),
-            Op::Immutable(_) => self.inner.shards[self.shard(hash)]
-                .read()
-                .with(|shard| shard.get_immutable(hash, key)),
-            Op::Mutable(_) => self.inner.shards[self.shard(hash)]
-                .write()
-                .with(|mut shard| shard.get_mutable(hash, key)),
-        }
-        .is_some()
+        // Look the entry up through a handle and drop it at once, so that the reference (and, for LRU, the pin)
+        // taken by the lookup is given back. A bare `get_*` on the shard would leak both.
+        self.get(key).is_some()
     }
 
     #[cfg_attr(feature = "tracing", fastrace::trace(name = "foyer::memory::raw::clear"))]
